@@ -6,6 +6,10 @@ TECH = "bounded exhaustive enumeration (stateless explicit-state exploration of 
 
 # property -> (category, text, note, technique)
 CHECKS = {
+ "C14": ("model_checking",
+  "Explicit enumeration of (prefix program up to depth 2 (3), branching point, suffix program up to depth 2) on compression (7 configurations incl. copy mid-gzip-header) and decompression (5 data sets incl. after an error, mid-header, inside a partially copied match): at the branching point the stream is duplicated and the suffix is run on both streams in alternation / with the original ended first / with the copy ended first, freed allocations being unmapped so that any sharing faults; every call's observables must equal those of the uncopied program. Likewise prefix ; reset ; suffix against a freshly initialised stream with the same parameters (C API and Rust reset methods).",
+  "Trusted: the harness. Parameters that zlib keeps across a reset (level/strategy set by deflateParams, inflateValidate) are applied to the fresh stream too; the adler field of raw inflate streams is not compared.",
+  "explicit enumeration of branching call histories, differential against the unbranched execution"),
  "C16": ("model_checking",
   "Explicit enumeration of ALL programs up to depth 3 (4-6 on reduced alphabets) over the exported compression and decompression entry points with small argument domains incl. out-of-range values, executed in lock-step on libz-rs-sys and zlib-ng 2.3.3; after every call the return code, input consumed and output bytes must be equal, and the process must never terminate. One-shot helpers and NULL-argument calls on lattices. The reference runs first in a forked child for programs on which it has C-level UB (pre-screen).",
   "Trusted: zlib-ng 2.3.3 as oracle where it is self-consistent. Not compared, as the property lists: totals after a dictionary request, inflateMark, dictionary length, message texts; additionally inflateUndermine's own status, deflatePending/deflateBound values, deflatePrime while output is pending (the reference scrambles its own stream), inflateValidate toggled across a gzip header (reference rejects valid streams). Known finding F3 (deflatePrime bits 33..64) is reported as KNOWN-FINDING.",
